@@ -115,4 +115,64 @@ def evalOkL : TL → Bool
   | .cons t ts => evalOk t && evalOkL ts
 end
 
+/-! ### the evaluator's visit order: ids of the FunctionAction leaves in the order their functions are called
+
+(meaningful when `eval` terminates; a child that is run again — RepeatAction — is visited again) -/
+
+mutual
+def visit : T → List Nat
+  | .node d cs =>
+    match d.kind with
+    | .func _ _ => [d.id]
+    | .sleep _ => []
+    | .dummy => []
+    | .seq m => visitSeq m cs
+    | .par _ => []          -- (not covered: the children of a ParallelAction interleave by loop pass)
+    | .ifElse hasThen hasElse =>
+        visitAt cs 0 ++
+        (match evalAt cs 0 with
+         | none => []
+         | some (c, _) =>
+           if c then (if hasThen then visitAt cs 1 else [])
+           else (if hasElse then visitAt cs (if hasThen then 2 else 1) else []))
+    | .ifThen => visitIfThen cs
+    | .switch hasDefault =>
+        visitAt cs 0 ++
+        (match evalAt cs 0 with
+         | some (true, w) =>
+           let ncases := cs.length - 1 - (if hasDefault then 1 else 0)
+           if w ≥ 100 && w - 100 < ncases then visitAt cs (1 + (w - 100))
+           else if hasDefault then visitAt cs (cs.length - 1) else []
+         | _ => [])
+    | .loop _ => visitAt cs 0
+    | .loopIf _ => visitAt cs 0
+    | .repeat_ n m =>
+        match evalAt cs 0 with
+        | none => visitAt cs 0
+        | some (s, _) =>
+          if (m == .breakSucc && s) || (m == .breakFail && !s) then visitAt cs 0
+          else (List.replicate n (visitAt cs 0)).flatten
+    | .wrapper _ => visitAt cs 0
+    | .composite => visitAt cs 0
+def visitAt : TL → Nat → List Nat
+  | .nil, _ => []
+  | .cons t _, 0 => visit t
+  | .cons _ ts, i + 1 => visitAt ts i
+def visitSeq : Mode3 → TL → List Nat
+  | _, .nil => []
+  | m, .cons t ts =>
+      visit t ++
+      (match eval t with
+       | none => []
+       | some (s, _) => if (m == .anySucc && s) || (m == .anyFail && !s) then [] else visitSeq m ts)
+def visitIfThen : TL → List Nat
+  | .cons i (.cons th rest) =>
+      visit i ++
+      (match eval i with
+       | some (true, _) => visit th
+       | some (false, _) => visitIfThen rest
+       | none => [])
+  | _ => []
+end
+
 end Tbox.C17
